@@ -6,9 +6,10 @@
    Groups: assign, comment (with markup-like text), blank, cont (backslash continuation, 2 rows), mstr (a string
    over 3 rows followed by a comment), cmp (a<b>c: comparison operators that look like a tag), paren (a bracketed
    expression over 2 rows), block (if + indented body: INDENT / DEDENT tokens), bscomment (a comment that ends with
-   a backslash), tagstr (a string holding an unbalanced closing tag), lsep (a string and a comment holding characters
-   that str.splitlines() takes for line ends but Python's tokenizer does not: U+2028, form feed, U+0085 - as the
-   stand-in cells "u2028", "u000c", "u0085").                                                                *)
+   a backslash), tagstr (a string holding an unbalanced closing tag), bsonly (a statement continued over a line that
+   holds nothing but the continuation backslash: a row without any token), lsep (a string and a comment holding
+   characters that str.splitlines() takes for line ends but Python's tokenizer does not: U+2028, form feed, U+0085 - as
+   the stand-in cells "u2028", "u000c", "u0085").                                                            *)
 EXTENDS Assemble, Json, TLC
 
 CONSTANTS MaxGroups, Names
@@ -17,7 +18,7 @@ VARIABLES prog, src, toks, st, i
 mvars == <<prog, src, toks, st, i>>
 
 Tk(ty, s, r1, c1, r2, c2) == [ty |-> ty, s |-> s, r1 |-> r1, c1 |-> c1, r2 |-> r2, c2 |-> c2]
-GroupNames == {"assign", "comment", "blank", "cont", "mstr", "cmp", "paren", "block", "bscomment", "tagstr", "lsep"}
+GroupNames == {"assign", "comment", "blank", "cont", "mstr", "cmp", "paren", "block", "bscomment", "tagstr", "bsonly", "lsep"}
 GroupRows(g) ==
   CASE g = "assign" -> <<<<"x", " ", "=", " ", "1">>>>
     [] g = "comment" -> <<<<"#", " ", "c", " ", "<", "b", ">">>>>
@@ -29,6 +30,7 @@ GroupRows(g) ==
     [] g = "block" -> <<<<"i", "f", " ", "x", ":">>, <<" ", " ", " ", " ", "p", "a", "s", "s">>>>
     [] g = "bscomment" -> <<<<"z", " ", "=", " ", "'", "q", "'", " ", " ", "#", " ", "\\">>>>
     [] g = "tagstr" -> <<<<"m", " ", "=", " ", "'", "<", "/", "i", "n", "f", "o", ">", "'">>>>
+    [] g = "bsonly" -> <<<<"v", " ", "=", " ", "x", " ", "+", " ", "\\">>, <<"\\">>, <<" ", " ", " ", " ", "3">>>>
     [] g = "lsep" -> <<<<"w", " ", "=", " ", "'", "a", "u2028", "b", "'", " ", " ", "#", " ", "c", "u000c", "d", "u0085", "e">>>>
 GroupToks(g) ==
   CASE g = "assign" -> <<Tk("default", <<<<"x">>>>, 1, 0, 1, 1),
@@ -83,6 +85,12 @@ GroupToks(g) ==
             Tk("op", <<<<"=">>>>, 1, 2, 1, 3),
             Tk("str", <<<<"'", "<", "/", "i", "n", "f", "o", ">", "'">>>>, 1, 4, 1, 13),
             Tk("newline", <<<<"NL">>>>, 1, 13, 1, 14)>>
+    [] g = "bsonly" -> <<Tk("default", <<<<"v">>>>, 1, 0, 1, 1),
+            Tk("op", <<<<"=">>>>, 1, 2, 1, 3),
+            Tk("default", <<<<"x">>>>, 1, 4, 1, 5),
+            Tk("op", <<<<"+">>>>, 1, 6, 1, 7),
+            Tk("num", <<<<"3">>>>, 3, 4, 3, 5),
+            Tk("newline", <<<<"NL">>>>, 3, 5, 3, 6)>>
     [] g = "lsep" -> <<Tk("default", <<<<"w">>>>, 1, 0, 1, 1),
             Tk("op", <<<<"=">>>>, 1, 2, 1, 3),
             Tk("str", <<<<"'", "a", "u2028", "b", "'">>>>, 1, 4, 1, 9),
